@@ -189,7 +189,7 @@ func genC17(thorough bool) func(t *rapid.T) Case {
 		if rapid.IntRange(0, 3).Draw(t, "extra_locals") == 3 {
 			c.Base.Inv.Locals = genExtraLocals(t, c.Base.Inv.Shape)
 		}
-		c.SinkKind = rapid.SampledFrom([]string{"ENOSPC", "EPIPE"}).Draw(t, "sink_kind")
+		c.SinkKind = rapid.SampledFrom([]string{"ENOSPC", "EPIPE", "ENOSPC", "EPIPE", "EAGAIN"}).Draw(t, "sink_kind")
 		c.Short = rapid.Bool().Draw(t, "short_write")
 		c.MaxExhaustive = 600
 		c.Sample = 40
@@ -313,6 +313,16 @@ func (c *CaseC17) Eval(ob *Obs) []Finding {
 			c.Only = k
 			return out
 		}
+		if c.SinkKind == "EAGAIN" {
+			// a transient failure: the command may fail, or carry on and deliver the complete report - nothing else
+			if !r.Failed && r.Stdout != base.Stdout {
+				out = append(out, Finding{"C17 transient-write-error-corrupts-report cmd=" + shape,
+					fmt.Sprintf("one write failed with EAGAIN after %d of %d bytes (short=%v); the command reported success but what arrived is not the report: %s", k, L, c.Short, firstDiff(base.Stdout, r.Stdout))})
+				c.Only = k
+				return out
+			}
+			continue
+		}
 		if !r.Failed {
 			out = append(out, Finding{"C17 sink-failure-exit0 cmd=" + shape,
 				fmt.Sprintf("stdout failed with %s after %d of %d bytes (short=%v) and the command still reported success", c.SinkKind, k, L, c.Short)})
@@ -339,10 +349,12 @@ type CaseC10 struct {
 	MaxExhaustive int     `json:"max_exhaustive"`
 	Sample        int     `json:"sample"`
 	LongLen       int     `json:"long_len"`
-	LongWhere     int     `json:"long_where"`    // index of the block before which the long line goes
-	LongForm      string  `json:"long_form"`     // "comment", "note"
-	Odd           string  `json:"odd,omitempty"` // kind "sentinel": an unusual but legal line put in the middle of the file
-	Only          int     `json:"only"`
+	LongWhere     int     `json:"long_where"` // index of the block before which the long line goes
+	LongForm      string  `json:"long_form"`  // "comment", "note"
+	// StatZero: the target reports size 0 to Stat (a FIFO, a procfs entry): a program that trusts the size reads nothing
+	StatZero bool   `json:"stat_zero,omitempty"`
+	Odd      string `json:"odd,omitempty"` // kind "sentinel": an unusual but legal line put in the middle of the file
+	Only     int    `json:"only"`
 }
 
 func genC10(thorough bool) func(t *rapid.T) Case {
@@ -350,6 +362,7 @@ func genC10(thorough bool) func(t *rapid.T) Case {
 		c := &CaseC10{Only: -1}
 		c.Kind = rapid.SampledFrom([]string{"offsets", "offsets", "offsets", "longline", "dir", "openfail", "sentinel"}).Draw(t, "kind")
 		c.Odd = rapid.SampledFrom([]string{"", "dots-heading", "long-comment", "long-note", "blank-runs", "tab-comment"}).Draw(t, "odd_line")
+		c.StatZero = rapid.IntRange(0, 3).Draw(t, "stat_zero") == 3
 		c.Target = rapid.SampledFrom([]string{"log", "db"}).Draw(t, "target")
 		names := shapeNames(func(s Shape) bool {
 			if c.Target == "log" {
@@ -419,8 +432,18 @@ func (c *CaseC10) Eval(ob *Obs) []Finding {
 			fw.Files = append(fw.Files[:fi:fi], fw.Files[fi+1:]...)
 			ob.planned("open_ENOENT")
 		}
+		if c.StatZero && c.Kind == "dir" {
+			fw.Files[fi].StatSize = new(int64)
+		}
 		r := ob.run(fw)
 		fired := r.Stats.ReadFaultsFired > 0 || r.Stats.OpenErrors > 0
+		if !fired && c.StatZero && c.Kind == "dir" && r.Panic == "" && !r.Failed {
+			// the program never tried to read the directory. Fine if the command has no use for the file;
+			// not if its report differs from the one it gives with the file in place
+			if base := ob.run(w); !base.Failed && base.Stdout != r.Stdout {
+				return []Finding{{"C10 unreadable-input-never-read" + sigTail, fmt.Sprintf("%s is a directory reporting size 0: the command did not try to read it and reported success with %d bytes of output instead of %d", path, len(r.Stdout), len(base.Stdout))}}
+			}
+		}
 		if !fired || r.Panic != "" {
 			return nil
 		}
@@ -533,6 +556,9 @@ func (c *CaseC10) Eval(ob *Obs) []Finding {
 	// fault-free twin: delivery chunking must not change anything
 	tw := cloneWorld(w)
 	tw.Files[fi].Plan = ReadPlan{Chunk: c.Chunk, ChunkSeed: c.ChunkSeed, MaxChunk: c.MaxChunk, ZeroReads: c.ZeroReads, FaultAt: -1}
+	if c.StatZero {
+		tw.Files[fi].StatSize = new(int64)
+	}
 	twin := ob.run(tw)
 	if twin.Stdout != base.Stdout || twin.Failed != base.Failed {
 		out = append(out, Finding{"C10 delivery-dependent" + sigTail,
